@@ -1,0 +1,28 @@
+//go:build verif
+
+package api
+
+// Contracts for the govc verifier (/verif). Comment-only.
+
+// "identical options" of property C04: every user-visible option agrees. Metadata is compared
+// by value with absent == "" (the code cannot tell them apart), in BOTH directions.
+// User allocations and origins are compared by length only here (their element comparison goes
+// through sort.Strings/strings.Join and multiaddr.Equal, which are library code).
+//@ spec func optsEq(a PinOptions, b PinOptions) bool = a.Name == b.Name && a.Mode == b.Mode && a.ReplicationFactorMin == b.ReplicationFactorMin && a.ReplicationFactorMax == b.ReplicationFactorMax && a.ShardSize == b.ShardSize && len(a.UserAllocations) == len(b.UserAllocations) && a.ExpireAt == b.ExpireAt && (forall k string :: k != "" ==> a.Metadata[k] == b.Metadata[k]) && len(a.Origins) == len(b.Origins)
+
+//@ func (po *PinOptions) Equals
+//@   property C04 C08
+//@   ensures [equal-options] res ==> po != nil && po2 != nil && optsEq(*po, *po2)
+//@   loop 1 (range po.Metadata)
+//@     invariant forall k string :: in(k, seen1) && k != "" ==> po.Metadata[k] == po2.Metadata[k]
+//@   loop 2 (range po2.Metadata)
+//@     invariant forall k string :: in(k, seen2) && k != "" ==> po.Metadata[k] == po2.Metadata[k]
+//@     invariant forall k string :: haskey(po.Metadata, k) && k != "" ==> po.Metadata[k] == po2.Metadata[k]
+//@   modifies nothing
+
+//@ func PeersToStrings
+//@   property C04 C08
+//@   ensures len(res) == len(peers)
+//@   loop 1 (range peers)
+//@     invariant len(strs) == len(peers)
+//@   modifies nothing
